@@ -149,3 +149,52 @@ Proof.
   { apply q_run_inv. repeat split; intros; contradiction. }
   destruct Hi as (_ & _ & Hn). exact (Hn _ _ _ H).
 Qed.
+
+(* ---------------- thread_stacksize::current ---------------- *)
+Lemma current_resolution_before_split : current_resolution = CurBeforeSplit.
+Proof. reflexivity. Qed.
+
+Lemma created_class_current_l : forall (path : cpath) (c : sclass) (conv : option sclass),
+  created_class path (Some c) conv Current = c /\ created_enum path (Some c) Current = Some c.
+Proof.
+  intros path c conv. unfold created_class, created_enum, create_prologue, create_prologue_at.
+  rewrite current_resolution_before_split. destruct path; split; reflexivity.
+Qed.
+
+Lemma created_class_explicit_l : forall (path : cpath) (creator conv : option sclass) (c : sclass),
+  created_class path creator conv (Explicit c) = c /\ created_enum path creator (Explicit c) = Some c.
+Proof.
+  intros path creator conv c. unfold created_class, created_enum, create_prologue, create_prologue_at.
+  rewrite current_resolution_before_split. destruct path; split; reflexivity.
+Qed.
+
+Lemma created_class_no_task_l : forall (path : cpath) (conv : option sclass),
+  created_class path None conv Current = no_self_class.
+Proof.
+  intros path conv. unfold created_class, create_prologue, create_prologue_at.
+  rewrite current_resolution_before_split. destruct path; reflexivity.
+Qed.
+
+Lemma descend_current_l : forall (gens : list (cpath * option sclass * sreq)) (c : sclass),
+  (forall g, In g gens -> snd g = Current) -> descend c gens = c.
+Proof.
+  induction gens as [|[[path conv] r] t IH]; intros c H; [reflexivity|].
+  cbn [descend]. assert (Hr : r = Current) by exact (H (path, conv, r) (or_introl eq_refl)).
+  subst r. rewrite (proj1 (created_class_current_l path c conv)).
+  apply IH. intros g Hg. apply H. right. exact Hg.
+Qed.
+
+(* the object a `current` child runs on has the stack size configured for the creator's class,
+   whether it is freshly allocated or recycled *)
+Lemma current_child_object_size_l : forall (p : params) (ops : list qop) (path : cpath) (c : sclass)
+    (conv : option sclass) o want,
+  In (EvRebound o (created_class path (Some c) conv Current) want) (qlog (q_run p ops)) \/
+  In (EvNew o (created_class path (Some c) conv Current) want) (qlog (q_run p ops)) ->
+  osize o = get_stack_size p c.
+Proof.
+  intros p ops path c conv o want H.
+  rewrite (proj1 (created_class_current_l path c conv)) in H.
+  destruct H as [H|H].
+  - destruct (recycle_same_size_l _ _ _ _ _ H) as [H1 H2]. congruence.
+  - destruct (new_object_size_l _ _ _ _ _ H) as [H1 H2]. congruence.
+Qed.
